@@ -248,4 +248,63 @@ theorem slice_neg_step_elems {α : Type} (xs : List α) (k : Nat) (hk : 0 < k) :
         simp [List.getElem?_eq_getElem hin]
   exact hp c (Nat.le_refl _)
 
+/-! ### length of any slice (C03: a slice is no way around the cap) -/
+
+theorem cnt_le (d s : Int) (n : Nat) (hs : 0 < s) (hd : d ≤ n) : ((d - 1) / s + 1).toNat ≤ n := by
+  rcases Int.lt_or_le (d - 1) 0 with h | h
+  · have : (d - 1) / s < 0 := Int.ediv_neg_of_neg_of_pos h hs
+    omega
+  · have := Int.ediv_le_self (b := s) h
+    omega
+
+theorem count_le (start stop step : Int) (n : Nat) (hz : step ≠ 0)
+    (hpos : 0 < step → 0 ≤ start ∧ stop ≤ n) (hneg : step < 0 → start ≤ n - 1 ∧ -1 ≤ stop) :
+    (if step > 0 then (if start < stop then ((stop - start - 1) / step + 1).toNat else 0)
+      else (if start > stop then ((start - stop - 1) / (-step) + 1).toNat else 0)) ≤ n := by
+  by_cases hp : step > 0
+  · simp only [hp, if_true]
+    obtain ⟨h1, h2⟩ := hpos hp
+    split
+    · have e : stop - start - 1 = (stop - start) - 1 := by omega
+      rw [e]; exact cnt_le _ _ _ hp (by omega)
+    · omega
+  · simp only [hp, if_false]
+    split
+    · rename_i hgt
+      obtain ⟨h1, h2⟩ := hneg (by omega)
+      have e : start - stop - 1 = (start - stop) - 1 := by omega
+      rw [e]; exact cnt_le _ _ _ (by omega) (by omega)
+    · omega
+
+/-- **a slice never selects more positions than the sequence has**, whatever the bounds and the step -/
+theorem sliceIndices_length_le (n : Nat) (a b c : Option Int) (idx : List Nat)
+    (h : sliceIndices n a b c = .ok idx) : idx.length ≤ n := by
+  unfold sliceIndices at h
+  simp only at h
+  split at h
+  · cases h
+  · rename_i hz
+    injection h with h
+    subst h
+    rw [List.length_map, List.length_range]
+    refine count_le _ _ _ _ hz ?_ ?_
+    · intro hp
+      have hn' : ¬ (c.getD 1 < 0) := by omega
+      simp only [hn', if_false]
+      constructor
+      · cases a <;> simp only <;> (try split) <;> omega
+      · cases b <;> simp only <;> (try split) <;> omega
+    · intro hneg
+      simp only [hneg, if_true]
+      constructor
+      · cases a <;> simp only <;> (try split) <;> omega
+      · cases b <;> simp only <;> (try split) <;> omega
+
+/-- so the list a slice read builds is never longer than the list it was read from -/
+theorem pick_slice_length_le {α : Type} (xs : List α) (a b c : Option Int) (idx : List Nat)
+    (h : sliceIndices xs.length a b c = .ok idx) : (pick xs idx).length ≤ xs.length := by
+  have h1 := sliceIndices_length_le _ _ _ _ _ h
+  have h2 : (pick xs idx).length ≤ idx.length := by unfold pick; exact List.length_filterMap_le _ _
+  omega
+
 end Sq
